@@ -52,6 +52,25 @@ pub mod extras {
         // an unmarked method after a marked one, with an error type that could be int-coded: it must not be
         fn im_after(&self, v: i32) -> Result<u64, std::io::Error>;
     }
+    // a trait-level attribute AND method-level attributes naming another identifier: the method's own attribute decides
+    #[cglue_trait]
+    #[int_result]
+    pub trait IrBoth {
+        fn ib_std(&self, v: i32) -> Result<u64, std::io::Error>;
+        #[int_result(AliasResult)]
+        fn ib_alias(&self, v: i32) -> AliasResult<u64, std::io::Error>;
+        #[int_result(AliasResult)]
+        fn ib_alias_unit(&self, v: i32) -> AliasResult<(), std::io::Error>;
+    }
+    /// odd: an OS error; 7777: an error WITHOUT an OS code - a method that uses integer codes reports it as the code 0xffff
+    fn ib_val(base: u64, v: i32) -> Result<u64, std::io::Error> {
+        if v == 7777 { Err(std::io::Error::new(std::io::ErrorKind::InvalidData, "not an OS error")) } else { ir_val(base, v) }
+    }
+    impl IrBoth for Irs {
+        fn ib_std(&self, v: i32) -> Result<u64, std::io::Error> { ib_val(self.0 + 3, v) }
+        fn ib_alias(&self, v: i32) -> AliasResult<u64, std::io::Error> { ib_val(self.0 + 4, v) }
+        fn ib_alias_unit(&self, v: i32) -> AliasResult<(), std::io::Error> { ib_val(self.0, v).map(|_| ()) }
+    }
     pub struct Irs(pub u64);
     fn ir_val(base: u64, v: i32) -> Result<u64, std::io::Error> {
         // even: success with a value derived from the state; odd: an OS error carrying v itself (positive and negative codes)
@@ -226,6 +245,18 @@ pub mod extras {
                 same_ir(rep, "plain result next to a method-level int_result", format!("{:?}", d.im_plain(v)), format!("{:?}", objm.im_plain(v)));
                 same_ir(rep, "io::Error result after a method-level int_result (kind must survive: not int-coded)",
                         format!("{:?}", d.im_after(v).map_err(|e| (e.kind(), e.raw_os_error()))), format!("{:?}", objm.im_after(v).map_err(|e| (e.kind(), e.raw_os_error()))));
+            }
+        }
+        // trait-level and method-level attributes together: all three methods are marked (two by their own attribute, which
+        // names the alias they return), so all three cross as integer codes - an error without an OS code arrives as 0xffff
+        {
+            let d = Irs(5);
+            let obj = trait_obj!(Irs(5) as IrBoth);
+            let coded = |r: String| r.replace("Err(None)", "Err(Some(65535))");
+            for v in [0i32, 2, 1, 13, -21, 7777] {
+                same_ir(rep, "trait-level int_result, method without its own attribute", coded(show(d.ib_std(v))), show(obj.ib_std(v)));
+                same_ir(rep, "method-level int_result(alias) under a trait-level int_result: not integer-coded", coded(show(d.ib_alias(v))), show(obj.ib_alias(v)));
+                same_ir(rep, "method-level int_result(alias) under a trait-level int_result (unit payload): not integer-coded", coded(show(d.ib_alias_unit(v))), show(obj.ib_alias_unit(v)));
             }
         }
         // the vtable entry itself, called the way a foreign caller does, with an output slot that already holds something:
